@@ -285,12 +285,19 @@ fn check_entries<T: RealNumber>(c: &mut Case, oracle: &str, sg: &str, v: &[(usiz
     c.check(oracle, bad.is_none(), sg, || bad.unwrap_or_default())
 }
 
+/// true when every distance involved is computed without any rounding (small integers under the
+/// Manhattan / Minkowski-1 metric): a wrong answer can then not be an effect of rounding
+fn exact_arithmetic(metric: Metric, rows: &[Vec<f64>], q: &[f64]) -> bool {
+    let small_int = |x: &f64| x.fract() == 0.0 && x.abs() <= 1e9;
+    matches!(metric, Metric::Manhattan | Metric::Mink(1)) && q.iter().all(small_int) && rows.iter().all(|r| r.iter().all(small_int))
+}
+
 /// Signature of a wrong answer. Answers that differ from the exact one only by points whose distance
 /// is within a few ulps of the decision boundary (the radius / the k-th distance) are the visible
 /// effect of floating-point rounding in a pruning bound (computed distances satisfy the triangle
 /// inequality only up to rounding); they get one narrow key of their own per structure.
 fn rounding_sig(algo: Algo, sg: &str, which: &str, at_boundary: bool) -> String {
-    if at_boundary {
+    if at_boundary && algo == Algo::Cover {
         format!("{}/{}-differs-only-within-rounding-of-the-boundary", algo.name(), which)
     } else {
         sg.to_string()
@@ -298,13 +305,13 @@ fn rounding_sig(algo: Algo, sg: &str, which: &str, at_boundary: bool) -> String 
 }
 
 /// the full oracle for one `find(q,k)` answer; true when the answer is a valid k-nearest set
-fn check_find<T: RealNumber>(c: &mut Case, algo: Algo, sg: &str, v: &[(usize, T, &Vec<T>)], data: &[Vec<T>], d1: &[f64], d2: &[f64], s1: &[f64], s2: &[f64], k: usize) -> bool {
+fn check_find<T: RealNumber>(c: &mut Case, algo: Algo, rounding_possible: bool, sg: &str, v: &[(usize, T, &Vec<T>)], data: &[Vec<T>], d1: &[f64], d2: &[f64], s1: &[f64], s2: &[f64], k: usize) -> bool {
     let len_ok = c.check("find.exactly-k", v.len() == k, sg, || format!("find(q, {}) returned {} entries (n = {})", k, v.len(), data.len()));
     let ent_ok = check_entries(c, "find.entries-true", sg, v, data, d1, d2);
     let rd = sorted_f(&v.iter().map(|e| f(e.1)).collect::<Vec<f64>>());
     let ks_ok = if len_ok {
         let ok = rd[..] == s1[..k] || rd[..] == s2[..k];
-        let near = !ok && ent_ok && (0..k).all(|j| (rd[j] - s1[j]).abs() <= 8.0 * eps::<T>() * s1[j]);
+        let near = !ok && ent_ok && rounding_possible && (0..k).all(|j| (rd[j] - s1[j]).abs() <= 8.0 * eps::<T>() * s1[j]);
         let sig = rounding_sig(algo, sg, "find", near);
         c.check("find.k-smallest", ok, &sig, || format!("k = {}: returned distances {:?}, the k smallest are {:?}", k, rd, &s1[..k]))
     } else {
@@ -313,7 +320,7 @@ fn check_find<T: RealNumber>(c: &mut Case, algo: Algo, sg: &str, v: &[(usize, T,
     len_ok && ent_ok && ks_ok
 }
 
-fn check_radius<T: RealNumber>(c: &mut Case, algo: Algo, sg: &str, v: &[(usize, T, &Vec<T>)], data: &[Vec<T>], d1: &[f64], d2: &[f64], r: f64) -> bool {
+fn check_radius<T: RealNumber>(c: &mut Case, algo: Algo, rounding_possible: bool, sg: &str, v: &[(usize, T, &Vec<T>)], data: &[Vec<T>], d1: &[f64], d2: &[f64], r: f64) -> bool {
     let ent_ok = check_entries(c, "radius.entries-true", sg, v, data, d1, d2);
     let mut got: Vec<usize> = v.iter().map(|e| e.0).collect();
     got.sort_unstable();
@@ -325,7 +332,7 @@ fn check_radius<T: RealNumber>(c: &mut Case, algo: Algo, sg: &str, v: &[(usize, 
     if !ok {
         let missing: Vec<usize> = e1.iter().cloned().filter(|i| got.binary_search(i).is_err()).collect();
         let extra: Vec<usize> = got.iter().cloned().filter(|i| e1.binary_search(i).is_err()).collect();
-        let at_boundary = ent_ok && missing.iter().chain(extra.iter()).all(|&i| i < data.len() && (d1[i] - r).abs() <= 8.0 * eps::<T>() * r);
+        let at_boundary = ent_ok && rounding_possible && missing.iter().chain(extra.iter()).all(|&i| i < data.len() && (d1[i] - r).abs() <= 8.0 * eps::<T>() * r);
         sig = rounding_sig(algo, sg, "find_radius", at_boundary);
         note = format!("missing {:?} (distances {:?}), extra {:?}", missing, missing.iter().map(|&i| d1[i]).collect::<Vec<f64>>(), extra);
     }
@@ -337,7 +344,7 @@ fn check_radius<T: RealNumber>(c: &mut Case, algo: Algo, sg: &str, v: &[(usize, 
 
 /// Builds one structure on `rows`, runs every query × k × radius through the brute-force oracle,
 /// and the invalid arguments through the rejection oracle. Returns the number of answers compared.
-fn run_structure<T: RealNumber, D: Distance<Vec<T>, T>>(c: &mut Case, rows: &[Vec<f64>], queries: &[Vec<f64>], metric: Metric, dist: D, algo: Algo, ks: &[usize], all_radii: bool) -> usize {
+fn run_structure<T: RealNumber, D: Distance<Vec<T>, T>>(c: &mut Case, rows: &[Vec<f64>], queries: &[Vec<f64>], metric: Metric, dist: D, algo: Algo, ks: &[usize], all_radii: bool, rounding_class: bool) -> usize {
     let n = rows.len();
     let cls = data_class(rows);
     let w = width::<T>();
@@ -364,6 +371,7 @@ fn run_structure<T: RealNumber, D: Distance<Vec<T>, T>>(c: &mut Case, rows: &[Ve
     let mut compared = 0usize;
     for (qi, qf) in queries.iter().enumerate() {
         let q: Vec<T> = tv::<T>(qf);
+        let rp = rounding_class && !exact_arithmetic(metric, rows, qf);
         // brute force through the library metric (both argument orders: the scan calls d(q,x), the tree d(x,q))
         let d1: Vec<f64> = data.iter().map(|x| f(dist.distance(x, &q))).collect();
         let d2: Vec<f64> = data.iter().map(|x| f(dist.distance(&q, x))).collect();
@@ -408,7 +416,7 @@ fn run_structure<T: RealNumber, D: Distance<Vec<T>, T>>(c: &mut Case, rows: &[Ve
                 }
                 Some(Ok(v)) => {
                     c.check("find.ok", true, &sg, String::new);
-                    check_find(c, algo, &sg, &v, &data, &d1, &d2, &s1, &s2, k);
+                    check_find(c, algo, rp, &sg, &v, &data, &d1, &d2, &s1, &s2, k);
                     compared += 1;
                     c.bucket_if(k < n && s1[k - 1] == s1[k], "ties-at-the-kth-distance");
                     c.bucket_if(k == 1, "k=1");
@@ -455,7 +463,7 @@ fn run_structure<T: RealNumber, D: Distance<Vec<T>, T>>(c: &mut Case, rows: &[Ve
                 }
                 Some(Ok(v)) => {
                     c.check("radius.ok", true, &sg, String::new);
-                    check_radius(c, algo, &sg, &v, &data, &d1, &d2, rf);
+                    check_radius(c, algo, rp, &sg, &v, &data, &d1, &d2, rf);
                     compared += 1;
                     c.bucket(bucket);
                 }
@@ -704,7 +712,7 @@ fn search_t<T: RealNumber>(c: &mut Case) {
     }
     let mut compared = 0;
     for algo in [Algo::Linear, Algo::Cover] {
-        compared += with_metric!(metric, d => run_structure::<T, _>(c, &rows, &queries, metric, d, algo, &ks, false));
+        compared += with_metric!(metric, d => run_structure::<T, _>(c, &rows, &queries, metric, d, algo, &ks, false, true));
     }
     if n >= 2 && compared > 0 {
         c.nontrivial();
@@ -773,7 +781,7 @@ fn lattice3x3(c: &mut Case) {
         let rows: Vec<Vec<f64>> = ord.iter().map(|&p| lattice_point(p)).collect();
         for metric in [Metric::Euclid, Metric::Manhattan] {
             for algo in [Algo::Linear, Algo::Cover] {
-                compared += with_metric!(metric, d => run_structure::<f64, _>(c, &rows, &queries, metric, d, algo, &ks, true));
+                compared += with_metric!(metric, d => run_structure::<f64, _>(c, &rows, &queries, metric, d, algo, &ks, true, false));
             }
         }
     }
@@ -1046,7 +1054,7 @@ fn own_neighbours<D: Distance<Vec<f64>, f64>>(c: &mut Case, inp: &EstInput, dist
     match r {
         Some(Ok(v)) => {
             let s1 = sorted_f(d1);
-            if check_find(c, inp.algo, &sg, &v, &inp.rows, d1, d1, &s1, &s1, inp.k) {
+            if check_find(c, inp.algo, !exact_arithmetic(inp.metric, &inp.rows, q), &sg, &v, &inp.rows, d1, d1, &s1, &s1, inp.k) {
                 Some(v.iter().map(|e| e.0).collect())
             } else {
                 None
